@@ -546,6 +546,10 @@ func (p *Parameter) parseABIParameterComponents(ctx context.Context) (tc *typeCo
 	suffix, arrays := splitElementaryTypeSuffix(abiTypeString, len(etStr))
 
 	if etStr == tupleTypeString {
+		if suffix != "" {
+			// "tuple" is followed only by array dimensions - there is no such type as "tuple7"
+			return nil, i18n.NewError(ctx, signermsgs.MsgUnsupportedABISuffix, suffix, abiTypeString, tupleTypeString)
+		}
 		tc = &typeComponent{
 			cType:         TupleComponent,
 			tupleChildren: make([]*typeComponent, len(p.Components)),
